@@ -65,11 +65,7 @@ Definition corr (x : case) : bool := cout_eqb (model (fst x)) (snd x).
 Definition is_bad_outcome (r : dres) : bool := match r with DrPanic | DrHang => true | _ => false end.
 
 (* the known class F2: the body parser overruns an enclosing length-delimited region *)
-Definition overrun_case (buf : bytes) : bool :=
-  match uv_decode buf with
-  | UvOk n rest => if (max_message_size <? n) || (len rest <? n) then false else overrun_b rest n
-  | _ => false
-  end.
+Definition overrun_case (buf : bytes) : bool := codec_overrun buf.
 
 (* known finding F2: a panic/hang on an input of the Overrun class *)
 Definition known_F2 (x : case) : bool :=
